@@ -188,7 +188,12 @@ pub fn gen_scope(t: &mut Tape) -> ScopeCase {
                     E::Var(format!("{}{}", ".".repeat(k), tail))
                 } else if inject {
                     fault = Some("unknown-name");
-                    E::Var(t.pick(&["nosuch", ".nosuch", "ga.nosuch", "...deep", "x"]).to_string())
+                    // (v3: also a dotted path that merely STARTS like the built-in `pc`)
+                    if crate::engine::gen_version() >= 3 {
+                        E::Var(t.pick(&["nosuch", ".nosuch", "ga.nosuch", "...deep", "x", "pc.zzq", "pc.zzq.zzr"]).to_string())
+                    } else {
+                        E::Var(t.pick(&["nosuch", ".nosuch", "ga.nosuch", "...deep", "x"]).to_string())
+                    }
                 } else if declared.is_empty() {
                     lit_of(1)
                 } else {
